@@ -228,6 +228,13 @@ def run_op(api, layout_mod, write_elf, op):
                               debug=op.get("debug", False))
             elif kind == "asm":
                 obj = api.asm(io.StringIO(op["src"]), op["march"])
+            elif kind == "bf":
+                obj = api.bfcompile(io.StringIO(op["src"]), op["march"])
+            elif kind == "pascal":
+                obj = api.pascal([io.StringIO(op["src"])], op["march"],
+                                 opt_level=op["opt"])
+            elif kind == "python":
+                obj = api.pycompile(io.StringIO(op["src"]), op["march"])
             elif kind == "project":
                 # several modules: main + library members in an archive,
                 # resolved by the linker
@@ -278,6 +285,21 @@ def run_op(api, layout_mod, write_elf, op):
                     data = f.getvalue() + "".join(
                         img.name + ":" + img.data.hex()
                         for img in linked.images)
+                elif kind == "rtimg":
+                    # link against the (lazily built, cached) compiler runtime
+                    lay = layout_mod.Layout.load(io.StringIO(layout_text(op)))
+                    linked = api.link([obj], lay, use_runtime=True)
+                    f = io.StringIO()
+                    linked.save(f)
+                    data = f.getvalue() + "".join(
+                        img.name + ":" + img.data.hex()
+                        for img in linked.images)
+                elif kind == "plink":
+                    linked = api.link([obj], partial_link=True,
+                                      debug=op.get("debug", False))
+                    f = io.StringIO()
+                    linked.save(f)
+                    data = f.getvalue()
                 elif kind == "hex":
                     from ppci.format.hexfile import HexFile
                     lay = layout_mod.Layout.load(io.StringIO(layout_text(op)))
